@@ -23,7 +23,7 @@ import io
 import numpy as np
 from hypothesis import strategies as st
 
-from . import gen, ref
+from . import gen, pools, ref
 from .harness import CaseTimeout, Outcome, case_alarm, guarded
 
 # wall-clock allowance of one transformation (only ever makes the machine skip
@@ -52,6 +52,10 @@ REFUSALS = (
 # ---------------------------------------------------------------------------
 
 OBS = st.sampled_from(["real", "real", "copy", "none"])
+# executor handed to the forest / tempering drivers: none (serial), a pool
+# whose tasks cross a pickle boundary (process-pool protocol), or a scatter
+# pool (ray/dask protocol: trees live 'remotely' as futures) - vlib/pools.py
+POOLS = st.sampled_from(["none", "none", "pickle", "scatter"])
 
 
 def _reconf_kw():
@@ -89,6 +93,7 @@ def op_strategy():
             {
                 "op": st.just("reconf_forest"),
                 "inplace": st.booleans(),
+                "pool": POOLS,
                 "kw": st.fixed_dictionaries(
                     {
                         "num_trees": st.integers(2, 3),
@@ -122,6 +127,7 @@ def op_strategy():
             {
                 "op": st.just("temper"),
                 "inplace": st.booleans(),
+                "pool": POOLS,
                 "tsf": tsf,
                 "kw": st.fixed_dictionaries(
                     {
@@ -204,6 +210,7 @@ def op_strategy():
             {
                 "op": st.just("slice_reconf_forest"),
                 "inplace": st.booleans(),
+                "pool": POOLS,
                 "tv": st.sampled_from([2, 4]),
                 "kw": st.fixed_dictionaries(
                     {
@@ -662,6 +669,12 @@ class Machine:
             self.inputs, self.output, self.sizes, path=path, **kw
         )
 
+    def _pool(self, op, name):
+        pool = pools.make_pool(op.get("pool"))
+        if pool is not False:
+            self.count(f"pool:{op['pool']}:{name}")
+        return pool
+
     def _target_size(self, tree, f):
         return max(1, tree.max_size() // f)
 
@@ -697,7 +710,10 @@ class Machine:
                 if inplace
                 else tree.subtree_reconfigure_forest
             )
-            return finish(*call(fn, parallel=False, **op["kw"]))
+            pool = pools.make_pool(op.get("pool"))
+            if pool is not False:
+                self.count(f"pool:{op['pool']}:{name}")
+            return finish(*call(fn, parallel=pool, **op["kw"]))
         if name == "anneal":
             kw = dict(op["kw"])
             if op["tsf"]:
@@ -709,7 +725,10 @@ class Machine:
             if op["tsf"]:
                 kw["target_size"] = self._target_size(tree, op["tsf"])
             fn = tree.parallel_temper_ if inplace else tree.parallel_temper
-            return finish(*call(fn, parallel=False, **kw))
+            pool = pools.make_pool(op.get("pool"))
+            if pool is not False:
+                self.count(f"pool:{op['pool']}:{name}")
+            return finish(*call(fn, parallel=pool, **kw))
         if name == "remove":
             avail = [ix for ix in self.labels if ix not in tree.sliced_inds]
             if not avail:
@@ -772,7 +791,7 @@ class Machine:
                 *call(
                     fn,
                     self._target_size(tree, op["tv"]),
-                    parallel=False,
+                    parallel=self._pool(op, name),
                     reconf_opts={"subtree_size": 4, "maxiter": 2},
                     **kw,
                 )
